@@ -15,7 +15,9 @@ git -C $WT apply $D/patch.diff || { echo "$D: patch does not apply"; exit 2; }
 ( cd $WT && PYTHONPATH=$PP PYTHONDONTWRITEBYTECODE=1 timeout 300 /venv/bin/python $DEMO >/dev/null 2>&1 ); DX=$?
 BL=$(/verif/tools/run_baseline.py $WT | head -1)
 LOG=/verif/work/seed-$(basename $D)-$TIER.log
-( cd /verif && VERIF_EVIDENCE_DIR=/verif/work/seed-evidence VERIF_REPO=$WT ./check $PID --tier $TIER > $LOG 2>&1 ); RC=$?
+PRIV=/var/tmp/seedpriv-$$; mkdir -p $PRIV/work; cp -a /verif/coq $PRIV/coq
+( cd /verif && VERIF_COQDIR=$PRIV/coq VERIF_WORK=$PRIV/work VERIF_EVIDENCE_DIR=/verif/work/seed-evidence VERIF_REPO=$WT ./check $PID --tier $TIER > $LOG 2>&1 ); RC=$?
+mkdir -p /verif/work/seed-replays/$(basename $D); cp $PRIV/work/$PID/replay-*.json /verif/work/seed-replays/$(basename $D)/ 2>/dev/null; rm -rf $PRIV
 V=$(grep -c '^VIOLATION' $LOG); NF=$(grep -c 'no-failing-input-found' $LOG)
 echo "$(basename $D) prop=$PID tier=$TIER demo_clean_rc=$DC demo_changed_rc=$DX [$BL] check_rc=$RC violations=$V no_input=$NF"
 /venv/bin/python - "$D" "$TIER" "$DC" "$DX" "$BL" "$RC" "$V" "$NF" "$LOG" <<'PY'
